@@ -62,3 +62,5 @@ PROPS.update({
     'C13': _e2e(['sie', 'mix'], ['C13'], ['outcome', 'calls', 'cache_status', 'age']),
     'C19': _e2e(['vary', 'inval'], ['C19'], ['store']),
 })
+
+PROPS['C10'] = _e2e(['store', 'mix'], ['C10'], ['outcome', 'ncalls'])
